@@ -45,6 +45,8 @@ var candidates []string
 // through its .abi0 symbol)
 var arenaWrapper = asm.ArenaAddr()
 
+var tinyWrapper = asm.TinyAddr()
+
 // Candidates lists the sweep targets: inert library functions plus the zoo functions.
 func Candidates() []string {
 	if candidates != nil {
@@ -121,6 +123,11 @@ func (W) Gen(prop string, seed uint64, tier string) *world.Plan {
 		var ops []world.Op
 		start := int((seed * 97) % uint64(len(c)))
 		for i := 0; i < n; i++ {
+			if r.Chance(250) {
+				// a routine with 7..32 bytes before its neighbour: refusal or a jump inside its own extent
+				ops = append(ops, world.Op{K: "tiny", T: r.Intn(len(asm.TinyRoutines)), N: r.Intn(4)})
+				continue
+			}
 			ops = append(ops, world.Op{K: "ptr", S: c[(start+i)%len(c)], N: r.Intn(4)})
 		}
 		p.Tasks = append(p.Tasks, world.Task{Role: "patcher", Ops: ops})
@@ -516,6 +523,12 @@ func execSweep(p *world.Plan, env *world.Env, arenaRegion simenv.Region) {
 	task := func() {
 		for i, op := range p.Tasks[0].Ops {
 			simcore.Yield(simcore.SiteOp, uintptr(i))
+			if op.K == "tiny" {
+				at = fmt.Sprintf("op#%d tiny routine %d", i, op.T)
+				execTiny(env, img, op, at, append(originw.ShapeRegions(img), arenaRegion), repl)
+				env.Op()
+				continue
+			}
 			entry := img.Lookup(op.S)
 			if entry == 0 {
 				continue
@@ -594,6 +607,71 @@ func execSweep(p *world.Plan, env *world.Env, arenaRegion simenv.Region) {
 		}
 	}
 	env.Res.Nontriv = true
+}
+
+func callInt(addr uintptr) int {
+	code := addr
+	fv := &code
+	f := *(*func() int)(unsafe.Pointer(&fv))
+	return f()
+}
+
+// execTiny tries to patch one routine of asm.Tiny, whose distance to the next routine is 7..32
+// bytes: goom must either refuse and change nothing, or keep the 13-byte jump inside the
+// routine's own extent; the neighbours on both sides must keep working; Unpatch restores.
+func execTiny(env *world.Env, img *simenv.Image, op world.Op, at string, base []simenv.Region, repl func()) {
+	sym := img.Lookup(asm.Pkg + "Tiny.abi0")
+	if sym == 0 || op.T < 0 || op.T >= len(asm.TinyRoutines) {
+		env.FailAt(at, "harness/symbol", "Tiny.abi0 not found")
+		return
+	}
+	rt := asm.TinyRoutines[op.T]
+	entry := sym + uintptr(rt.Off)
+	neighbours := func(when string, self bool) {
+		for d := -1; d <= 1; d++ {
+			j := op.T + d
+			if j < 0 || j >= len(asm.TinyRoutines) || (d == 0 && !self) {
+				continue
+			}
+			n := asm.TinyRoutines[j]
+			if got := callInt(sym + uintptr(n.Off)); got != n.K {
+				env.FailAt(at, "mem/neighbour-clobbered", "%s: routine %d of Tiny (%d bytes from routine %d) returns %#x, want %#x", when, j, n.Off-rt.Off, op.T, got, n.K)
+			}
+		}
+	}
+	neighbours("before", true)
+	var g *patch.Guard
+	var err error
+	pv := catch(func() { g, err = patch.Ptr(entry, repl) })
+	env.Check()
+	if pv != nil || err != nil || g == nil {
+		env.Probe(fmt.Sprintf("tiny_refused_extent_%d", rt.Extent))
+		if msg := img.Check(base); msg != "" {
+			env.FailAt(at, "mem/refused-but-written", "patch of a %d-byte routine was refused (%v %v) but the image changed: %s", rt.Extent, pv, err, msg)
+		}
+		neighbours("after the refused patch", true)
+		return
+	}
+	g.Apply()
+	env.Check()
+	env.Probe(fmt.Sprintf("tiny_patched_extent_%d", rt.Extent))
+	if rt.Extent < 13 {
+		env.FailAt(at, "mem/too-short-accepted", "routine %d of Tiny has only %d bytes before the next routine but the 13-byte jump was written", op.T, rt.Extent)
+	}
+	if msg := img.Check(append(base, simenv.Region{Addr: entry, Len: 13, Kind: simenv.RegionJump, Name: "Tiny routine"})); msg != "" {
+		env.FailAt(at, "image/stray", "after patching routine %d of Tiny (extent %d): %s", op.T, rt.Extent, msg)
+	}
+	neighbours("while patched", false)
+	if msg := img.CheckPages(false); msg != "" {
+		env.FailAt(at, "pages/writable", "after patching a tiny routine: %s", msg)
+	}
+	g.UnpatchWithLock()
+	env.Check()
+	if msg := img.Check(base); msg != "" {
+		env.FailAt(at, "image/not-restored", "after unpatching routine %d of Tiny: %s", op.T, msg)
+	}
+	neighbours("after unpatch", true)
+	env.T("tiny %d ok", op.T)
 }
 
 //go:nocheckptr
